@@ -23,12 +23,18 @@ try:
     for sid in ids:
         d = os.path.join(V, "seeded", sid)
         meta = json.load(open(os.path.join(d, "meta.json")))
-        prop = meta["property"]
+        prop = os.environ.get("CHECK_AS") or meta["property"]   # CHECK_AS=Cmm: run a sibling property's check on this change
+        sibling = prop != meta["property"]
         ap = sh(["git", "-C", WT, "apply", "--whitespace=nowarn", os.path.join(d, "patch.diff")])
         if ap.returncode != 0:
             ap = sh(["git", "-C", WT, "apply", "--3way", "--whitespace=nowarn", os.path.join(d, "patch.diff")])
         if ap.returncode != 0:
             print("%-10s patch does not apply: %s" % (sid, ap.stdout.strip()[:200]))
+            if sibling:
+                print("%-10s as %-4s %s  (%.0fs) %s" % (sid, prop, "CAUGHT" if lines else "missed", time.time() - t0, (why[0][:140] if why else "")))
+                meta.setdefault("sibling_checks", {})[prop] = {"caught": bool(lines), "why": [w.split("] ", 1)[-1][:220] for w in why]}
+                json.dump(meta, open(os.path.join(d, "meta.json"), "w"), indent=1)
+                continue
             results[sid] = {"property": prop, "applied": False}
             sh(["git", "-C", WT, "reset", "-q", "--hard"]); sh(["git", "-C", WT, "clean", "-fdq"])
             continue
@@ -37,6 +43,11 @@ try:
             r = sh([os.path.join(V, "check"), prop, "--tier", tier], cwd=V, env=env)
             lines = [l for l in r.stdout.splitlines() if l.startswith("VIOLATION")]
             why = [l for l in r.stdout.splitlines() if "violation:" in l][:2]
+            if sibling:
+                print("%-10s as %-4s %s  (%.0fs) %s" % (sid, prop, "CAUGHT" if lines else "missed", time.time() - t0, (why[0][:140] if why else "")))
+                meta.setdefault("sibling_checks", {})[prop] = {"caught": bool(lines), "why": [w.split("] ", 1)[-1][:220] for w in why]}
+                json.dump(meta, open(os.path.join(d, "meta.json"), "w"), indent=1)
+                continue
             results[sid] = {"property": prop, "applied": True, "caught": bool(lines), "exit": r.returncode, "tier": tier,
                             "violation_lines": [l.replace(V + "/", "") for l in lines[:3]], "why": [w[:300] for w in why], "wall_s": round(time.time() - t0, 1)}
             print("%-10s %-4s %s  (%.0fs) %s" % (sid, prop, "CAUGHT" if lines else "missed", time.time() - t0, (why[0][:140] if why else "")))
